@@ -5,7 +5,7 @@ import vlib, coqreplay
 THEOREMS = ["C16_capture_faithful", "C16_closed", "C16_order_complete", "C16_sort_preserved", "C16_sorted_cands",
             "C16_table_provider_hyps", "C16_fresh_ids_disjoint", "C16_captured_resolvable", "C16_capture_inv",
             "C16_serde_roundtrip", "C16_serde_same_answers", "C16_valid_ext", "C16_solution_valid_live",
-            "C16_same_verdict", "C16_hints_preserved_refuted"]
+            "C16_same_verdict", "C16_hints_preserved_refuted", "C16_union_order_preserved_refuted"]
 CHECKER = ("coqc Data/Snapshot.v Props/C16.v + Print Assumptions; harness snapshot_cases (real from_provider / "
            "SnapshotProvider / serde_json on dense and sparse-id universes) -> (a) per-case Coq Example "
            "`obs_of (capture (table_provider U) fuel seeds) adds = observed snapshot, fresh ids, names after additions` "
@@ -182,8 +182,7 @@ def replay_obj(rec, extra=None):
 
 
 def run_bin(b, args):
-    recs, hangs = vlib.run_harness(b, args)
-    return recs, hangs
+    return vlib.run_harness(b, args)
 
 
 def judge(res, recs, second, n_coq):
@@ -370,8 +369,7 @@ def judge(res, recs, second, n_coq):
                               f"{rec['direct'].get('outcome')} / {rec['rt'].get('outcome')} vs {o['direct'].get('outcome')} / "
                               f"{o['rt'].get('outcome')}", replay_obj(rec))
     # ---- (a) in-Coq comparison of the model with the real snapshot
-    sample = [r for r in ok_recs if "outcome" in r["direct"] or "add_ids" in r["direct"]]
-    sample = [r for r in sample if "add_ids" in r["direct"]][:n_coq]
+    sample = [r for r in ok_recs if "add_ids" in r["direct"]][:n_coq]
     examples = [(f"case_{i}", example_stmt(r)) for i, r in enumerate(sample)]
     n_ok, failed = coqreplay.run_examples("C16", HEADER, examples)
     res.obligations += len(examples)
@@ -392,16 +390,23 @@ def corpus_files():
     return [os.path.join(d, f) for f in sorted(os.listdir(d)) if f.endswith(".json")] if os.path.isdir(d) else []
 
 
+def other_process(b, path, first, tries=5):
+    """Re-run a replay file in fresh processes; return the first run whose solutions differ from
+    `first` (union members live in a hash set whose order may differ per process), else the last run."""
+    s2 = first
+    for _ in range(tries):
+        s2, _ = run_bin(b, ["--replay", path])
+        if any(x.get("direct") != y.get("direct") or x.get("rt") != y.get("rt") for x, y in zip(first, s2)):
+            break
+    return s2
+
+
 def run(res, tier, seed, replay):
     vlib.proof_gate(res, "C16", THEOREMS)
     b = os.path.join(vlib.cargo_build("debug", hooks=True, bins=["snapshot_cases"]), "snapshot_cases")
     if replay:
         recs, _ = run_bin(b, ["--replay", replay])
-        second = []
-        for _ in range(3):
-            second, _ = run_bin(b, ["--replay", replay])
-            if any(spec_key(x["spec"]) and x.get("direct") != y.get("direct") for x, y in zip(recs, second)):
-                break
+        second = other_process(b, replay, recs)
         n_coq = len(recs)
     else:
         n = 400 if tier == "quick" else 10000
@@ -411,17 +416,9 @@ def run(res, tier, seed, replay):
         for f in corpus_files():
             r, _ = run_bin(b, ["--replay", f])
             recs += r
-            sec = r
-            for _ in range(5):
-                s2, _ = run_bin(b, ["--replay", f])
-                if any(x.get("direct") != y.get("direct") or x.get("rt") != y.get("rt") for x, y in zip(r, s2)):
-                    sec = s2
-                    break
-            second += sec
-        n_corpus = len(recs)
-        n_coq += n_corpus
-        args = ["--seed", str(seed), "--count", str(n)]
-        r, hangs = run_bin(b, args)
+            second += other_process(b, f, r)
+        n_coq += len(recs)
+        r, hangs = run_bin(b, ["--seed", str(seed), "--count", str(n)])
         recs += r
         r2, _ = run_bin(b, ["--seed", str(seed), "--count", str(min(n, 400))])
         second += r2
